@@ -146,6 +146,38 @@ def m_where(c, *rest):
     return A(axes, ite(ce, ae, be), dom if dom is not None else sp.true)
 
 
+_UNINIT = [0]
+
+
+def _uninit(axes=()):
+    """contents of np.empty / np.empty_like: an arbitrary value per element (a fresh symbol that varies along the given axes); code that
+    returns it without overwriting it cannot be proved equal to anything"""
+    _UNINIT[0] += 1
+    s_ = sp.Symbol("uninitialised_%d" % _UNINIT[0], real=True)
+    for ax in axes:
+        if ax is not ONE:
+            ax.syms.add(s_)
+    return s_
+
+
+def _empty_like(x, *a, **k):
+    if isinstance(x, EA):
+        out = np.empty(x.shape, dtype=object)
+        for idx in np.ndindex(*x.shape):
+            out[idx] = S(_uninit())
+        return EA(out)
+    if isinstance(x, A):
+        return A(x.axes, _uninit(x.axes), x.dom)
+    if isinstance(x, S):
+        return S(_uninit())
+    raise Unsupported("empty_like of %r" % type(x))
+
+
+def m_empty(shape, *a, **k):
+    axes, dom = _shape_to_axes(shape)
+    return A(axes, _uninit(axes), dom)
+
+
 def _like(value):
     def h(x, *a, **k):
         v = value
@@ -540,12 +572,12 @@ def build_models(interp):
     reg(np.where, m_where)
     reg(np.zeros_like, _like(0))
     reg(np.ones_like, _like(1))
-    reg(np.empty_like, _like(0))  # contents unspecified; every element must be overwritten -- checked by use
+    reg(np.empty_like, _empty_like)  # contents unspecified: a fresh arbitrary value per element
     reg(np.full_like, _like(None))
     reg(np.full, m_full)
     reg(np.zeros, m_zeros)
     reg(np.ones, m_ones)
-    reg(np.empty, m_zeros)
+    reg(np.empty, m_empty)
     reg(np.sum, m_sum)
     reg(np.count_nonzero, m_count_nonzero)
     reg(np.var, m_var)
